@@ -625,6 +625,40 @@ Definition run_import (c : str * list Z * Z) : list Z :=
   let '(text, ids, counter) := c in
   enc_res (import_all Z parsef_c parse_int_c text (ids, counter)).
 
+(* ---- PolygonFilter.copy(invert) ------------------------------------------------
+     if invert: inverted = not self.inverted  else: inverted = self.inverted
+     return PolygonFilter(axes=self.axes, points=self.points, name=self.name,
+                          inverted=inverted)
+   The new instance takes unique_id = _instance_counter through _set_unique_id
+   and is appended to PolygonFilter.instances. *)
+Definition pf_copy {F} (f : pfilter F) (invert : bool) (r : registry) : pfilter F * registry :=
+  let inverted := if invert then negb (f_inv F f) else f_inv F f in
+  let '(uid, r') := set_unique_id (snd r) r in
+  (mkpf F uid (f_ax F f) (f_ay F f) (f_name F f) inverted (f_pts F f),
+   (fst r' ++ [uid], snd r')).
+
+(* PolygonFilter.filter of an instance whose coordinates are rationals *)
+Definition pf_apply (cross : pt -> pt -> pt -> bool) (f : pfilter Q) (pts : list pt) : list bool :=
+  pf_filter cross (f_inv Q f) (f_pts Q f) pts.
+
+(* chain of copies: every copy is taken from the previous one *)
+Fixpoint copy_chain {F} (f : pfilter F) (flags : list bool) (r : registry)
+  : list (pfilter F) * registry :=
+  match flags with
+  | [] => ([], r)
+  | b :: flags' => let '(g, r') := pf_copy f b r in
+                   let '(gs, r'') := copy_chain g flags' r' in
+                   (g :: gs, r'')
+  end.
+
+(* case: (inverted flag of the source, registered ids, counter, invert flags)
+   -> [id; inverted] per copy, then the counter and the registered ids *)
+Definition run_copies (c : Z * list Z * Z * list Z) : list Z :=
+  let '(inv0, ids, counter, flags) := c in
+  let src := mkpf Z 0 [] [] [] (negb (inv0 =? 0)) [] in
+  let '(gs, r) := copy_chain src (map (fun b => negb (b =? 0)) flags) (ids, counter) in
+  flat_map (fun g => [f_id Z g; b2z (f_inv Z g)]) gs ++ [snd r] ++ fst r.
+
 (* ---- guards of the round-trip theorem (mirrored by harness/c15.py) --------- *)
 Definition no_nl (s : str) : bool :=
   forallb (fun c => negb (c =? 10) && negb (c =? 13)) s.
